@@ -46,3 +46,25 @@ Print Assumptions C11_candidates_stay_in_valid_histories.
 Theorem C11_candidates_structurally_valid : forall nw, stmt_neighbors_structurally_valid nw.
 Proof. exact neighbors_structurally_valid. Qed.
 Print Assumptions C11_candidates_structurally_valid.
+
+(** "Generating candidates never panics", on the functional model, where every unwrap / index / unsigned subtraction of
+    the code is an explicit Panic result and every fuelled loop an explicit OutOfFuel (NoPanicStmts.v):
+    enumerating the candidates of a schedule that satisfies the proved invariants always succeeds; applying the
+    removal and hitch-hiking candidates never crashes (under non-negative cost rates and distances, true of every
+    network loaded from an instance with non-negative cost parameters). The path-exchange and maintenance-spawn
+    candidates: NoPanicFactsB.v (being re-proved for the model after the repair "fix: a spawn without any free depot is
+    refused instead of panicking", which these proofs led to). *)
+From RS Require Import LoadStmts TourExactFacts RenderStmts NoPanicStmts NoPanicFactsA.
+Theorem C11_candidate_enumeration_never_crashes : forall nw, stmt_candidates_no_crash nw.
+Proof. exact candidates_no_crash. Qed.
+Print Assumptions C11_candidate_enumeration_never_crashes.
+Theorem C11_simple_candidates_never_crash : forall nw,
+  net_fine nw -> net_extra_b nw = true -> dists_finite_b nw = true -> dh_dists_finite_b nw = true ->
+  forall s cs c, Good nw s -> SpawnRoom nw s -> candidates nw s = Ok cs -> In c cs ->
+    (match c with CRemove _ _ | CHitch _ _ => True | _ => False end) -> no_crash (apply_cand nw s c).
+Proof. exact apply_cand_simple_no_crash_under_extra. Qed.
+Print Assumptions C11_simple_candidates_never_crash.
+Theorem C11_loaded_networks_have_nonnegative_figures : forall i perm nw,
+  valid_instance_b i = true -> params_costs_nonneg (i_params i) -> load i perm = Ok nw -> net_extra_b nw = true.
+Proof. exact load_extra. Qed.
+Print Assumptions C11_loaded_networks_have_nonnegative_figures.
